@@ -311,6 +311,14 @@ func decodeOne(a *acc, t *target, in []byte, family string) {
 	case t.prim:
 		cl := nonCanonClass(in, enc)
 		a.outcomes[t.name+"/ok-noncanonical:"+cl]++
+		if g := fpGroup(t.name, cl); strings.HasPrefix(g, "optional-pointer(rlp:nil)/") {
+			// Not asserted. The statement's "exactly one byte string" clause is about primitive values; a
+			// field tagged rlp:"nil" is an optional pointer, and the codec documents (decode.go, doc of
+			// Decode: "input values of size zero decode as a nil pointer") that the empty string and
+			// the empty list both mean nil. Counted and reported in the evidence notes.
+			a.note("codec-documented-dual-nil/"+g, fmt.Sprintf("%s: decode(%x) succeeds and the value encodes as %x", t.name, in, enc), len(in))
+			break
+		}
 		a.violate("C14/codec-noncanonical/"+fpGroup(t.name, cl),
 			fmt.Sprintf("low-level codec accepts a second encoding for %s: decode(%x) succeeds and the value encodes as %x", t.name, in, enc),
 			replayCase{Kind: "decode", Target: t.name, Hex: hx(in)}, len(in))
